@@ -60,8 +60,8 @@ HARNESSES.append(dict(
     assumptions=["hkdf_expand: psHmac is a logging stub with arbitrary output (HMAC-SHA256, 32-byte blocks); PRK of 32 bytes; info 0..6 bytes; L = 0..70 (up to 3 blocks)"],
     undefined_ok="*", unwind=80, cbmc_flags=["--object-bits", "11"],
     cases=[dict(name="l70", defs={"VF_OP": 0, "VF_MAXL": 70})]))
-HKDF_LABEL_PARKED = (dict(   # no verdict yet: success path not reachable under the heap model (vacuous), 700 s per run
-    name="hkdf_label", src="hkdf.c", checks=COMMON["MEMCHECKS"], units=["crypto/common/alg_info.c"],
+HARNESSES.append(dict(
+    name="hkdf_label", src="hkdf.c", renames={"crypto/digest/hkdf.c": ["psHkdfExpand"]}, checks=COMMON["MEMCHECKS"], units=["crypto/common/alg_info.c"],
     functions=["psHkdfExpandLabel", "psDynBufInit", "psDynBufAppendTlsVector", "psDynBufDetachPsSize"], sources=["crypto/digest/hkdf.c", "core/src/psbuf.c"],
     assumptions=["hkdf_label: psHkdfExpand is a logging stub; label 1..8 bytes, context 0..8 bytes, any 16-bit length; dynamic buffers over the static-pool heap model (allocation succeeds)"],
     undefined_ok="*", unwind=70, cbmc_flags=["--object-bits", "11"],
